@@ -176,7 +176,9 @@ FailedStepFrozen == [][~IsHostStep => s'.store = ApplyWrites(s.store, s'.writes,
 \* the statement executed next, on its own: if it fails the store is untouched
 NextStatementFrozen ==
   (~IsOos /\ ~s.ended /\ s.cmd.st = "none" /\ s.wait = <<>>) =>
-     LET t == Step(P, [s EXCEPT !.mode = "run", !.out = NoOut]) IN t.out.k = "error" => t.store = s.store
+     \* (what host functions called by the failing statement wrote through the storer is the host's doing)
+     LET t == Step(P, [s EXCEPT !.mode = "run", !.out = NoOut, !.fcalls = <<>>]) IN
+     t.out.k = "error" => t.store = EffStore(s.store, t.fcalls, 1)
 WritesExplainStore ==   \* the store changes only through the logged writes
   [][~IsHostStep => \A v \in DOMAIN s.store :
         s'.store[v] # s.store[v] => \E i \in DOMAIN s'.writes : s'.writes[i].var = v]_vars
